@@ -985,3 +985,25 @@ fire('r5-runner-side-table', ['C17'], 'C17.RELEASE-COVERS-ALL-STORES',
 fire('r5-visited-set-grows', ['C15', 'C02'], 'C15.VISITED-PATH-LOCAL',
      ('labtech/tasks.py', 'find_tasks_in_param', "        searched_coll_ids = searched_coll_ids | {id(param_value)}\n        return [\n            task\n            for item in param_value\n",
       "        searched_coll_ids.add(id(param_value))\n        return [\n            task\n            for item in param_value\n"))
+
+
+# -- fifth refactoring round: sound forms silent, broken forms reported -------------------------------------------------------
+_READY_GUARD = """        for task in self.pending_tasks:
+            if len(self.task_to_pending_dependencies.get(task, set())) > 0:
+                continue
+"""
+silent('ref5-ready-filter-generator', ['C02', 'C05', 'C11'],
+       (LAB, 'TaskState.get_ready_tasks', _READY_GUARD,
+        "        unblocked = (task for task in self.pending_tasks if len(self.task_to_pending_dependencies.get(task, set())) == 0)\n        for task in unblocked:\n"))
+fire('ref5-ready-filter-generator-inverted', ['C02'], 'C02.READY-GATE',
+     (LAB, 'TaskState.get_ready_tasks', _READY_GUARD,
+      "        unblocked = (task for task in self.pending_tasks if len(self.task_to_pending_dependencies.get(task, set())) > 0)\n        for task in unblocked:\n"),
+     note='the filter keeps the blocked tasks: the unfolded guard is the wrong way round and READY-GATE must say so')
+silent('ref5-free-worker-property', ['C04', 'C05'],
+       (PROC, 'ProcessExecutor._start_processes', "start_count = max(0, self.max_workers - len(self._running_id_to_future_and_process))", "start_count = self._free_worker_count"),
+       (PROC, None, "    def _start_processes(self):", "    @property\n    def _free_worker_count(self) -> int:\n        return max(0, self.max_workers - len(self._running_id_to_future_and_process))\n\n    def _start_processes(self):"))
+fire('ref5-free-worker-property-ignores-running', ['C04'], 'C04.WORKER-GATE',
+     (PROC, 'ProcessExecutor._start_processes', "start_count = max(0, self.max_workers - len(self._running_id_to_future_and_process))", "start_count = self._free_worker_count"),
+     (PROC, None, "    def _start_processes(self):", "    @property\n    def _free_worker_count(self) -> int:\n        return max(0, self.max_workers)\n\n    def _start_processes(self):"))
+silent('ref5-debug-logging-in-main-loop', ['C05', 'C11'],
+       (LAB, 'TaskCoordinator.run', "                        for task in ready_tasks:\n", "                        if len(ready_tasks) > 0:\n                            logger.debug('submitting %d tasks', len(ready_tasks))\n                        for task in ready_tasks:\n"))
